@@ -113,6 +113,14 @@ CHECKS = {
             "Sampled networks over all latitudes/longitudes, all accepted observation kinds, fixed/free/constrained "
             "datum; exploration.",
             "DESIGN.md §2 C19", TRUST),
+    "C14": ("runtime monitor on the real binary with trace hooks: defects with consequences known by construction "
+            "(isolated / under-determined points, single directions, blunders at tol-abs*(1+-eps)) are injected; "
+            "expected (construction + independent misclosures) vs done (hooks rm_point, rm_obs_abs_term, revision_obs) vs "
+            "visible (text and XML reports) are compared, then exactly the excluded items are deleted and the results "
+            "must agree; four algorithms must exclude the same items",
+            "Sampled 1D/2D/3D networks x 14 defect kinds x blunders on every observation kind x tol-abs in {10,1000,1e5} "
+            "x 4 algorithms; exploration.",
+            "DESIGN.md §2 C14", TRUST),
 }
 
 NOT_APPLICABLE = {}
